@@ -68,6 +68,11 @@ def build(world, base):
     for d in (root, sentinel, home, scratch):
         os.makedirs(d)
     os.environ["HOME"] = home
+    if (world.get("git") or {}).get("use_home_config"):
+        # the user's own Git configuration (core.excludesFile ...) is part of this world
+        os.environ["GIT_CONFIG_GLOBAL"] = os.path.join(home, ".gitconfig")
+    else:
+        os.environ["GIT_CONFIG_GLOBAL"] = "/dev/null"
     _write_tree(sentinel, world.get("sentinel"))
     _write_tree(home, world.get("home"))
     for d in world.get("sentinel_dirs") or []:
@@ -82,6 +87,11 @@ def build(world, base):
         if t.startswith("@S/"):
             t = os.path.join(sentinel, t[3:])
         os.symlink(t, p)
+    for l in world.get("sentinel_links") or []:
+        # a symlink outside the project that points into it (a second way to spell the root)
+        p = os.path.join(sentinel, l["path"])
+        os.makedirs(os.path.dirname(p), exist_ok=True)
+        os.symlink(os.path.join(root, l["target"]) if l["target"] != "." else root, p)
     for f in world.get("fifos") or []:
         p = os.path.join(root, f)
         os.makedirs(os.path.dirname(p), exist_ok=True)
